@@ -6,6 +6,7 @@ import (
 	"encoding/json"
 	"fmt"
 	"os"
+	"runtime/debug"
 	"sort"
 	"strings"
 	"sync"
@@ -118,6 +119,8 @@ type gen struct {
 	w    *vs.World
 	hist []*HistOp
 	v    int
+	// composite rows arrange roots and config independently: the "other" write must not touch either of them
+	composite bool
 }
 
 func (g *gen) emit(h *HistOp) {
@@ -244,13 +247,13 @@ func (g *gen) other(ek string, e Entity) {
 	case ekToken:
 		g.x(XTokenSet, false, e.OtherAcc)
 	case ekCAConfig:
-		if rapid.Bool().Draw(t, "otherroots") {
+		if !g.composite && rapid.Bool().Draw(t, "otherroots") {
 			g.x(XCARootsSet, false, "")
 		} else {
 			g.x(XCAProvider, false, "")
 		}
 	case ekCARoots:
-		if rapid.Bool().Draw(t, "othercfg") {
+		if !g.composite && rapid.Bool().Draw(t, "othercfg") {
 			g.x(XCAConfigSet, false, "")
 		} else {
 			g.x(XCAProvider, false, "")
@@ -325,6 +328,7 @@ func GenCase(t *rapid.T, c *verifkit.Case, ex Exec, row Row) {
 	g := &gen{t: t, c: c, w: vs.NewWorld(state.NewStateStore(nil))}
 	g.noise(cfgFull, verifkit.EnvInt("VERIF_C10_PREFIX", 5))
 	if ti.EK == ekComposite {
+		g.composite = true
 		rp, cp := splitCompositePre(row.Pre)
 		if rapid.Bool().Draw(t, "rootsfirst") {
 			g.arrange(ekCARoots, rp, h.Ent)
@@ -877,6 +881,8 @@ func RunOnStore(s *state.Store, b *Built) Outcome {
 func RunCells(t T, ex Exec, check func(t T, name string, prop func(*rapid.T))) {
 	rec := verifkit.For("C10")
 	defer rec.Flush()
+	// thousands of tiny short-lived stores: trade a little memory for much less GC work (no effect on any verdict)
+	defer debug.SetGCPercent(debug.SetGCPercent(400))
 	only := os.Getenv("VERIF_C10_ONLY") // development aid: substring of the row name
 	for _, row := range Rows(ex) {
 		row := row
